@@ -1,12 +1,12 @@
 package main
 
 import (
-	"time"
 	"bytes"
 	"context"
 	"fmt"
 	"io"
 	"sort"
+	"time"
 )
 
 // C17: RenderPartials.
